@@ -26,6 +26,11 @@ Progs == {[ops |-> Prog(a, rep, s)] : a \in 0 .. 5, rep \in {"norm", "flip", "pr
          \* and y at the boundary of the sign choice
          \cup {[ops |-> ProgFrom(Op("ypt", 1, i, 0, "ydyad", <<>>), "2")] : i \in 0 .. (IF Tier = "quick" THEN 31 ELSE 63)}
          \cup {[ops |-> ProgFrom(Op("ypt", 1, i, 0, c, <<>>), "r-1")] : i \in 0 .. 5, c \in {"yhalf", "ypat", "yhalf192"}}
+         \* scalar multiplications of ONE element by a scalar and then by a different scalar that a cheap digest of the limbs cannot tell from it
+         \* (canonical digits and stored words): whatever is remembered about the first must not answer for the second
+         \cup {[ops |-> << Op("spt", 1, a, 0, "proj", <<>>), Op("smul", 3, 1, 0, "relb:" \o ToString(j) \o sfx, <<>>),
+                           Op("smul", 4, 1, 0, "relr:" \o ToString(j) \o ":" \o ToString(i) \o sfx, <<>>), Op("smul", 5, 1, 0, "relb:" \o ToString(j) \o sfx, <<>>) >>] :
+                 a \in {0, 4}, j \in 0 .. 1, i \in 0 .. 16, sfx \in {"", "m"}}
          \* LARGE batches (a helper that splits long lists among workers / chunks does so beyond any length the histories reach): lengths
          \* around 1024, 2048, 4096 and lengths that 3, 4, 5, 7, 16 workers do not divide; distinct pointers and repeated pointers
          \cup {[ops |-> << Op("id", 1, 0, 0, "", <<>>), Op(o, 0, n, 0, pat, <<>>) >>] :
